@@ -302,14 +302,153 @@ def handle (toks : List String) : Option String :=
     pure (s!"n={hs.length} end={endStr e}" ++ String.join (hs.map fun h => " | " ++ fmtHeader h))
   | _ => none
 
-partial def loop (h : IO.FS.Stream) (out : IO.FS.Stream) : IO Unit := do
+/-! ### stateful stack sessions -/
+
+def pOptNat : P (Option Nat)
+  | "~" :: r => some (none, r)
+  | t :: r => t.toNat?.map (fun n => (some n, r))
+  | [] => none
+
+def pTimings : P Timings := fun ts => do
+  let (a, ts) ← pNat ts; let (b, ts) ← pNat ts; let (c, ts) ← pNat ts; let (d, ts) ← pNat ts
+  let (e, ts) ← pNat ts; let (f, ts) ← pNat ts; let (g, ts) ← pNat ts; let (h, ts) ← pNat ts
+  let (i, ts) ← pNat ts; let (j, ts) ← pNat ts; let (k, ts) ← pOptNat ts; let (l, ts) ← pNat ts
+  pure ({ initialDelayMin := a, initialDelayMax := b, reqRespDelayMin := c, reqRespDelayMax := d,
+          repetitionsMax := e, repetitionsBaseDelay := f, cyclicOfferDelay := g, findTtl := h,
+          announceTtl := i, subscribeTtl := j, subscribeRefresh := k, sendCollectionTimeout := l }, ts)
+
+def pListener : P Listener
+  | "ext" :: ts => do let (id, ts) ← pNat ts; pure (.ext id, ts)
+  | "auto" :: ts => do let (g, ts) ← pEventgroup ts; pure (.auto g, ts)
+  | _ => none
+
+def pInput : P Stack.Input
+  | "start" :: ts => some (.start, ts)
+  | "stop" :: ts => some (.stop, ts)
+  | "connLost" :: ts => some (.connLost, ts)
+  | "annStop" :: ts => some (.announcerStop, ts)
+  | "annStart" :: ts => some (.announcerStart, ts)
+  | "dgram" :: ts => do
+    let (a, ts) ← pNat ts; let (mc, ts) ← pBool ts; let (b, ts) ← pHex ts
+    pure (.dgram a mc b, ts)
+  | "watch" :: ts => do
+    let (f, ts) ← pService ts; let (l, ts) ← pListener ts
+    pure (.watch f l, ts)
+  | "unwatch" :: ts => do
+    let (f, ts) ← pService ts; let (l, ts) ← pListener ts
+    pure (.unwatch f l, ts)
+  | "watchAll" :: ts => do let (id, ts) ← pNat ts; pure (.watchAll id, ts)
+  | "unwatchAll" :: ts => do let (id, ts) ← pNat ts; pure (.unwatchAll id, ts)
+  | "subscribe" :: ts => do
+    let (g, ts) ← pEventgroup ts; let (d, ts) ← pNat ts
+    pure (.subscribe g d, ts)
+  | "stopSubscribe" :: ts => do
+    let (g, ts) ← pEventgroup ts; let (d, ts) ← pNat ts
+    pure (.stopSubscribe g d, ts)
+  | "announce" :: ts => do let (i, ts) ← pNat ts; pure (.announce i, ts)
+  | "stopAnnounce" :: ts => do
+    let (i, ts) ← pNat ts; let (b, ts) ← pBool ts
+    pure (.stopAnnounce i b, ts)
+  | "setNak" :: ts => do
+    let (i, ts) ← pNat ts; let (egs, ts) ← pCounted pNat ts
+    pure (.setNak i egs, ts)
+  | "draws" :: ts => do let (ds, ts) ← pCounted pNat ts; pure (.draws ds, ts)
+  | _ => none
+
+def fmtSvcKey (k : SvcKey) : String := s!"{k.sid} {k.iid} {k.maj} {k.min}"
+def fmtSubKey (k : SubKey) : String :=
+  let eps := ((k.endpoints.map fmtOption).toArray.qsort (· < ·)).toList
+  s!"{k.sid} {k.iid} {k.maj} {k.egid} {k.counter} {eps.length}" ++ String.join (eps.map fun e => " [" ++ e ++ "]")
+def fmtDest : Dest → String | none => "~" | some a => s!"{a}"
+
+def fmtOut (o : Nat × Out) : String :=
+  let t := o.1
+  match o.2 with
+  | .send d b => s!"{t} send {fmtDest d} {toHex b}"
+  | .offered l k a => s!"{t} offered {l} {fmtSvcKey k} from {a}"
+  | .stopped l k a => s!"{t} stopped {l} {fmtSvcKey k} from {a}"
+  | .subscribed i k a => s!"{t} subscribed {i} {fmtSubKey k} from {a}"
+  | .unsubscribed i k a => s!"{t} unsubscribed {i} {fmtSubKey k} from {a}"
+  | .raised e => s!"{t} raised {e.name}"
+
+def taskName (s : Stack) (tid : Nat) : String :=
+  match s.getTask tid with
+  | some t => (match t.kind with | .offer _ => "task:_offer_task" | .find => "task:send_find_services" | .subscribe => "task:_subscribe")
+  | none => "task:?"
+
+def cbName (s : Stack) : Cb → String
+  | .handleOffer _ _ => "handle_offer"
+  | .connLost .subscriber => "connection_lost:subscriber"
+  | .connLost .discovery => "connection_lost:discovery"
+  | .connLost .announcer => "connection_lost:announcer"
+  | .expiredSvc _ _ => "_expired"
+  | .expiredSub _ _ _ => "_expired"
+  | .sendStartSubscribe _ _ => "_send_start_subscribe"
+  | .sendStopSubscribe _ _ => "_send_stop_subscribe"
+  | .sendOfferTo _ _ => "_send_offer"
+  | .collectorTimeout _ => "_handle_timeout"
+  | .taskStep tid => taskName s tid
+  | .sleepDone _ => "sleep"
+
+def fmtState (s : Stack) (from_ : Nat) : String :=
+  let outs := (s.outs.drop from_).map fmtOut
+  let ready := s.loop.ready.map fun r => cbName s r.cb
+  let timers := (s.loop.timers.map fun t => (t.deadline, t.seq, cbName s t.cb))
+  let timers := (timers.toArray.qsort (fun a b => a.1 < b.1 || (a.1 == b.1 && a.2.1 < b.2.1))).toList
+  s!"now={s.loop.now} outs=[{" ; ".intercalate outs}] ready=[{",".intercalate ready}] timers=[" ++
+    ",".intercalate (timers.map fun (d, q, n) => s!"{q}@{d}:{n}") ++ "]"
+
+abbrev Sessions := List (String × Stack)
+
+def sessGet (ss : Sessions) (n : String) : Option Stack := (ss.find? (·.1 == n)).map (·.2)
+def sessSet (ss : Sessions) (n : String) (s : Stack) : Sessions := (n, s) :: ss.filter (·.1 != n)
+
+def handleStack (ss : Sessions) (toks : List String) : Option (Sessions × String) :=
+  match toks with
+  | "stk.new" :: name :: r => do
+    let (tm, r) ← pTimings r
+    let (svcs, []) ← pCounted pService r | none
+    let s : Stack := { tm, instances := svcs.map fun sv => { service := sv } }
+    pure (sessSet ss name s, "ok " ++ fmtState s 0)
+  | "stk.in" :: name :: r => do
+    let s ← sessGet ss name
+    let (x, []) ← pInput r | none
+    let s' := s.applyInput x
+    pure (sessSet ss name s', "ok " ++ fmtState s' s.outs.length)
+  | ["stk.run", name] => do
+    let s ← sessGet ss name
+    match s.step .run with
+    | some s' => pure (sessSet ss name s', "ok " ++ fmtState s' s.outs.length)
+    | none => pure (ss, "disabled")
+  | ["stk.fire", name, q] => do
+    let s ← sessGet ss name
+    let q ← q.toNat?
+    match s.step (.fire q) with
+    | some s' => pure (sessSet ss name s', "ok " ++ fmtState s' s.outs.length)
+    | none => pure (ss, "disabled")
+  | ["stk.adv", name, t] => do
+    let s ← sessGet ss name
+    let t ← t.toNat?
+    match s.step (.adv t) with
+    | some s' => pure (sessSet ss name s', "ok " ++ fmtState s' s.outs.length)
+    | none => pure (ss, "disabled")
+  | _ => none
+
+partial def loop (h : IO.FS.Stream) (out : IO.FS.Stream) (ss : Sessions) : IO Unit := do
   let line ← h.getLine
   if line.isEmpty then return ()
   let toks := (line.trimAscii.toString.splitOn " ").filter (· ≠ "")
-  out.putStrLn ((handle toks).getD "bad-op")
-  loop h out
+  match toks with
+  | t :: _ =>
+    if t.startsWith "stk." then
+      match handleStack ss toks with
+      | some (ss', ans) => out.putStrLn ans; loop h out ss'
+      | none => out.putStrLn "bad-op"; loop h out ss
+    else
+      out.putStrLn ((handle toks).getD "bad-op"); loop h out ss
+  | [] => out.putStrLn "bad-op"; loop h out ss
 
 def main : IO Unit := do
   let stdin ← IO.getStdin
   let stdout ← IO.getStdout
-  loop stdin stdout
+  loop stdin stdout []
